@@ -16,6 +16,7 @@ import (
 
 type Case struct {
 	Corpus model.Corpus      `json:"corpus"`
+	Synth  gen.Synth         `json:"synth"` // parametric large corpus (lid-block class)
 	Bulks  []int             `json:"bulks"` // sizes of consecutive bulks (arrival order)
 	Sealed bool              `json:"sealed"`
 	Reqs   []Req             `json:"reqs"`
@@ -30,6 +31,7 @@ type Req struct {
 func genCase(t *rapid.T) Case {
 	var c Case
 	big := rapid.IntRange(0, 39).Draw(t, "big") == 39
+	huge := rapid.IntRange(0, 79).Draw(t, "huge") == 79 // one token with > 65536 postings
 	o := gen.CorpusOpts{MaxDocs: 40}
 	if rapid.IntRange(0, 4).Draw(t, "tiny") == 4 {
 		o.MaxDocs = 6
@@ -39,6 +41,12 @@ func genCase(t *rapid.T) Case {
 		o.BodyMax = 4
 	}
 	c.Corpus = gen.Corpus(t, o)
+	if huge {
+		c.Synth = gen.Synth{N: rapid.IntRange(65537, 80000).Draw(t, "n"), PerMID: rapid.SampledFrom([]int{1, 40}).Draw(t, "permid"), Big: true}
+		for i := range c.Corpus {
+			c.Corpus[i].ID.RID |= 1 << 62 // keep ids distinct from the synthetic ones
+		}
+	}
 	rest := len(c.Corpus)
 	for rest > 0 {
 		n := rapid.IntRange(1, rest).Draw(t, "bulk")
@@ -49,11 +57,32 @@ func genCase(t *rapid.T) Case {
 		rest -= n
 	}
 	c.Sealed = rapid.Bool().Draw(t, "sealed")
+	all := c.docs()
 	nreq := rapid.IntRange(1, 6).Draw(t, "nreq")
 	for i := 0; i < nreq; i++ {
-		c.Reqs = append(c.Reqs, Req{R: gen.SearchReq(t, c.Corpus, 6), Style: gen.Style(t)})
+		rq := Req{R: gen.SearchReq(t, all, 6), Style: gen.Style(t)}
+		if huge {
+			a := model.Lit("big", model.Exact("x"))
+			switch rapid.IntRange(0, 3).Draw(t, "usebig") {
+			case 0:
+				rq.R.Q = a
+			case 1:
+				rq.R.Q = model.And(a, rq.R.Q)
+			case 2:
+				rq.R.Q = model.And(rq.R.Q, model.Not(a))
+			}
+			rq.R.Limit = min(rq.R.Limit, rapid.SampledFrom([]int{10, 1000}).Draw(t, "biglimit"))
+		}
+		c.Reqs = append(c.Reqs, rq)
 	}
 	return c
+}
+
+func (c *Case) docs() model.Corpus {
+	if c.Synth.N == 0 {
+		return c.Corpus
+	}
+	return append(append(model.Corpus{}, c.Corpus...), c.Synth.Docs()...)
 }
 
 func runCase(c Case) (evid.Result, error) {
@@ -71,6 +100,13 @@ func runCase(c Case) (evid.Result, error) {
 		}
 		pos += n
 	}
+	synth := c.Synth.Docs()
+	for p := 0; p < len(synth); p += 5000 {
+		if err := st.Bulk(synth[p:min(len(synth), p+5000)]); err != nil {
+			return res, evid.Failf("bulk-error", "%v", err)
+		}
+	}
+	corpus := c.docs()
 	st.WaitIdle()
 	if c.Sealed {
 		st.Seal()
@@ -78,20 +114,23 @@ func runCase(c Case) (evid.Result, error) {
 	} else {
 		res.Labels = append(res.Labels, "active")
 	}
-	if len(c.Corpus) > 4096 {
+	if len(corpus) > 4096 {
 		res.Labels = append(res.Labels, "id-block")
+	}
+	if c.Synth.N > 65536 {
+		res.Labels = append(res.Labels, "lid-block")
 	}
 	for i := range c.Reqs {
 		rq := &c.Reqs[i]
 		text := model.RenderSeqQL(rq.R.Q, rq.Style)
-		want := model.Search(c.Corpus, &rq.R)
+		want := model.Search(corpus, &rq.R)
 		qpr, err := st.Search(&rq.R, text, nil)
 		if err != nil {
 			return res, evid.Failf("search-error", "req %d %q: %v", i, text, err)
 		}
 		got := harness.FromSeqIDs(qpr.IDs)
 		if !model.EqualIDs(got, want.IDs) {
-			return res, evid.Failf("ids-differ", "req %d %q from=%d to=%d asc=%v limit=%d: got %v want %v", i, text, rq.R.From, rq.R.To, rq.R.Asc, rq.R.Limit, got, want.IDs)
+			return res, evid.Failf("ids-differ", "req %d %q from=%d to=%d asc=%v limit=%d: got %d ids %v want %d ids %v", i, text, rq.R.From, rq.R.To, rq.R.Asc, rq.R.Limit, len(got), head(got), len(want.IDs), head(want.IDs))
 		}
 		if rq.R.WithTotal && qpr.Total != want.Total {
 			return res, evid.Failf("total-differs", "req %d %q: got %d want %d", i, text, qpr.Total, want.Total)
@@ -100,8 +139,8 @@ func runCase(c Case) (evid.Result, error) {
 			return res, evid.Failf("hist-differs", "req %d %q: got %s want %s", i, text, harness.FmtHist(harness.HistOf(qpr)), harness.FmtHist(want.Hist))
 		}
 		res.Evals++
-		all := len(model.Matching(c.Corpus, &model.SearchReq{Q: rq.R.Q, From: 0, To: ^uint64(0)}))
-		if all > 0 && all < len(c.Corpus) {
+		all := len(model.Matching(corpus, &model.SearchReq{Q: rq.R.Q, From: 0, To: ^uint64(0)}))
+		if all > 0 && all < len(corpus) {
 			res.NonTrivial = true
 		}
 		res.Labels = append(res.Labels, classify(&rq.R, len(want.IDs), all)...)
@@ -167,3 +206,10 @@ func TestProp(t *testing.T)   { evid.Check(t, genCase, runCase) }
 func TestReplay(t *testing.T) { evid.Replay(t, runCase) }
 
 var _ = fmt.Sprint
+
+func head(ids []model.ID) []model.ID {
+	if len(ids) > 8 {
+		return ids[:8]
+	}
+	return ids
+}
